@@ -38,10 +38,10 @@ def make_history(R, nfiles):
         elif k < 0.80:
             ops.append((R.choice([b'w! other', b'1,1w! other', b'w other2']), 'write-other'))
         elif k < 0.85:
-            ops.append((b'e!', 'reload'))
+            ops.append((R.choice([b'e!', b'e!', b'e! +1s/^/R/', b'e! +$d']), 'reload'))
         elif k < 0.95:
             j = R.randint(1, nfiles)
-            ops.append((R.choice([b'e f%d', b'e! f%d', b'e! f%d']) % j, 'edit'))
+            ops.append((R.choice([b'e f%d', b'e! f%d', b'e! f%d', b'e +1s/^/P/ f%d', b'e! +1d f%d', b'e +2 f%d', b'e! +$s/$/Q/ f%d']) % j, 'edit'))
         else:
             ops.append((R.choice([b'e #', b'b 1', b'b 2', b'b +', b'b -']), 'switch'))
     return ops
@@ -333,7 +333,7 @@ def run(tier, V):
         elif res_u == 'ok':
             un_ok += 1
     cov = {'evaluations': checks + nw + 1 + nfull + nun, 'unnamed_buffer_scenarios': nun, 'unnamed_refusals_or_saves_observed': un_ok, 'distinct_nontrivial': dirty + nw + nfull, 'full_table_scenarios': nfull, 'histories': n, 'prefix_probes': checks, 'probes_with_a_dirty_buffer': dirty, 'saved_position_walks': nw,
-           'rule': ('%d random histories (modify, u, redo, w, w!, partial own-path writes, writes to other paths, e!, e, e!, e #, b N/+/-) over 2-4 files; EVERY prefix is run in a fresh process followed by a probe '
+           'rule': ('%d random histories (modify, u, redo, w, w!, partial own-path writes, writes to other paths, e!, e, e!, e +cmd / e! +cmd with commands that edit, e #, b N/+/-, several commands on one line) over 2-4 files; EVERY prefix is run in a fresh process followed by a probe '
                     '(list, dump of every open buffer, attempt :q / :e / :b without !, list).  oracle: dumped text vs the file now on disk.  + %d edit/save/undo/redo walks with a position model (both directions) + the 17-path LRU scenario + scenarios with 12-16 buffers open, dirty ones anywhere in the MRU table, then :q/:x/:wq + scenarios that start without a file name and write to pipes, parts, new names before :q/:x/:wq/:e. '
                     'non-trivial = a probe in which some open buffer differed from its file (the refusal path was exercised), or a walk.' % (n, nw)),
            'samples': [{'prefix': [c.decode() for c, _ in make_history(rng('c02', base), 3)][:8]}]}
